@@ -1404,7 +1404,7 @@ class Executor:
         # exceptional outcomes decided by the pre-state
         for exc_cls, spec in c.raises.items():
             when = spec.get("when")
-            ctx = SpecCtx(self, old=pre, cur=pre, names=dict(bind), module=cmod)
+            ctx = SpecCtx(self, old=pre, cur=(st if c.when_facts else pre), names=dict(bind), module=cmod)
             if when is None:
                 cnd = self.fresh(f"raises_{exc_cls.__name__}", B)
             else:
